@@ -240,7 +240,7 @@ def _dump(ctx, nb=40):
 
 
 def run_project(project, strategy="off", gate_seed=0, interrupt_at=None, backend_fault=None, watchdog=30.0,
-                gate_watchdog=10.0, builder=None):
+                gate_watchdog=10.0, stall=8.0, builder=None):
     """
     strategy      "off" | "fifo" | "lifo" | "random"   gate controller (obs.schedrec)
     interrupt_at  None | ["get", k]                    KeyboardInterrupt instead of the k-th blocking completed-queue get
@@ -256,6 +256,10 @@ def run_project(project, strategy="off", gate_seed=0, interrupt_at=None, backend
     rec = schedrec.Recorder(n, strategy=strategy, rng=random.Random(gate_seed),
                             interrupt_at=tuple(interrupt_at) if interrupt_at else None, watchdog=gate_watchdog)
     rec.verbose = True
+    # generated user code never waits for anything but a gate: several seconds without a single record, with tasks in
+    # flight and nobody held at a gate, is a worker that is stuck (a hang is then reported after `stall`, not after
+    # the whole-run watchdog)
+    rec.stall_seconds = stall
     namer = ThreadNamer(rec.lock)
     rec.thread_namer = lambda: namer("worker")
     ctx.rec, ctx.namer, ctx.fault = rec, namer, backend_fault
